@@ -159,6 +159,15 @@ def build_harness():
     return rc == 0, out, exe
 
 
+def build_pint(race=False):
+    exe = os.path.join(BUILD, "pint-race" if race else "pint")
+    if os.path.exists(exe):
+        os.remove(exe)
+    cmd = ["go", "build", "-tags", "stringlabels"] + (["-race"] if race else []) + ["-o", exe, "./cmd/pint"]
+    rc, out = sh(cmd, cwd=REPO, env=goenv())
+    return rc == 0, out, exe
+
+
 def load_known(prop):
     p = os.path.join(VERIF, "known_findings.json")
     if not os.path.exists(p):
@@ -193,6 +202,9 @@ def main(argv):
             notes.append(genlog)
         pr = prove(prop, tier == "thorough") if ok else {"obligations": len(theorem_names(prop)), "discharged": 0, "failed": ["Gen regeneration failed: " + genlog[-1500:]], "axioms": {}, "checker_cmd": "tools/extract", "log": genlog}
         hok, hlog, exe = build_harness()
+        pint_bin = None
+        if hok and cfg.get("needs_binary"):
+            hok, hlog, pint_bin = build_pint()
     if not hok:
         print(hlog)
         print("harness does not build against /repo's working tree")
@@ -212,7 +224,7 @@ def main(argv):
             inp = os.path.join(outdir, "replay-input.json")
             json.dump(body.get("violation", body), open(inp, "w"))
             cmd += ["-replay", inp]
-        rc, out = sh(cmd, env=dict(goenv(), GOMAXPROCS="16"), timeout=cfg.get("timeout", {}).get(tier, 3000))
+        rc, out = sh(cmd, env=dict(goenv(), GOMAXPROCS="16", PINT_BIN=pint_bin or ""), timeout=cfg.get("timeout", {}).get(tier, 3000))
         if rc != 0:
             notes.append("harness exited %d: %s" % (rc, out[-3000:]))
             path = write_replay(prop, seed, 0, {"property": prop, "kind": "harness-crash", "log": out[-6000:]})
@@ -268,7 +280,7 @@ def main(argv):
             rp = os.path.join(VERIF, f["replay"])
             od = tempfile.mkdtemp(prefix="known-", dir=BUILD)
             try:
-                rc, out = sh([exe, prop, "-seed", "0", "-n", "1", "-out", od, "-replay", rp], env=goenv(), timeout=600)
+                rc, out = sh([exe, prop, "-seed", "0", "-n", "1", "-out", od, "-replay", rp], env=dict(goenv(), PINT_BIN=pint_bin or ""), timeout=600)
                 still = False
                 if rc == 0:
                     s2 = json.load(open(os.path.join(od, "summary.json")))
